@@ -59,8 +59,8 @@ pub fn dist64(a: &[f32], b: &[f32], m: DistanceMetric) -> f64 {
             .map(|(x, y)| (*x as f64 - *y as f64).powi(2))
             .sum::<f64>()
             .sqrt(),
-        DistanceMetric::Cosine => 1.0 - cos64(a, b),
-        DistanceMetric::InnerProduct => 1.0 - dot64(a, b),
+        // since fix (C07): the smaller of what the two search tiers can report for the pair
+        DistanceMetric::Cosine | DistanceMetric::InnerProduct => (1.0 - cos64(a, b)).min(1.0 - dot64(a, b)),
     }
 }
 
